@@ -199,7 +199,7 @@ def rf46(run):
         raise F.AnalysisBroken('func_alloca_features: the statement clearing set_top_alloca_p on an opcode was not found')
     codes = dict(tu.enum('MIR_insn_code_t'))
     for c in ('MIR_LABEL', 'MIR_CALL', 'MIR_INLINE', 'MIR_JCALL', 'MIR_JMP', 'MIR_BT', 'MIR_BF', 'MIR_BEQ', 'MIR_BLT', 'MIR_UBGE', 'MIR_FBNE',
-              'MIR_DBGT', 'MIR_LDBLE', 'MIR_BO', 'MIR_UBNO', 'MIR_SWITCH', 'MIR_JMPI', 'MIR_PRBEQ', 'MIR_BSTART'):
+              'MIR_DBGT', 'MIR_LDBLE', 'MIR_BO', 'MIR_UBNO', 'MIR_SWITCH', 'MIR_JMPI', 'MIR_PRBEQ', 'MIR_BSTART', 'MIR_RET', 'MIR_JRET'):
         v = preds.eval(site['c'][0], {'insn->code': codes[c], 'set_top_alloca_p': 1}, frozenset())
         ok = v is not None and bool(v)
         run.ob(rule, (c,), ok, {'opcode': c, 'ends the search for the top alloca': v})
@@ -210,6 +210,7 @@ def rf46(run):
                           'alloca: %s' % (c, 'it is executed more than once' if c == 'MIR_LABEL' else 'a call in front of it is inlined with '
                                           'a frame address computed from the alloca register before the alloca has executed' if c in ('MIR_CALL', 'MIR_INLINE', 'MIR_JCALL')
                                           else 'its memory is released by the matching bend while callees inlined behind it still use it' if c == 'MIR_BSTART'
+                                          else 'it is never executed; when the function is inlined the copy loop stops at the return and never meets the alloca it was told to merge (NULL dereference in process_inlines, D117)' if c in ('MIR_RET', 'MIR_JRET')
                                           else 'a branch can jump over it, and the frame of a callee inlined behind the join is addressed from a register that was never set'), line=site['l'])
     run.min_instances(rule, 4)
 
